@@ -324,6 +324,10 @@ def spread_case(rng, db, rows=None):
                   "pe": ["pe"], "pressure": ["pressure", "press"], "description": ["description", "desc"], "density": ["density", "dens"]}
     cols = ["Number"] + special + list(elems)
     rng.shuffle(cols)
+    if cols[0] == "pressure":
+        # known finding `spread-first-heading-pressure`: a heading row that STARTS with pressure/press is taken for a block-level
+        # option line and the whole spreadsheet is lost; exactly this case is judged by its own probe, not here
+        cols.append(cols.pop(0))
     heads = [rng.choice(head_spell[c]) if c in head_spell else c for c in cols]
     ucells = []
     for c in cols:
@@ -724,7 +728,7 @@ class System:
                     " 30 SAVE moles\n -end\n")
             blocks.insert(0, rate)
             kb = (f"KINETICS {nother}\n Dissolve\n -formula {p['formula']} 1.0\n -m0 {fmt(p['m0'] * k)}\n -parms {p['k']!r}\n"
-                  f" -tol {fmt(1e-10 * min(k, 1.0))}\n -steps {p['time']!r} in {p['steps']} steps\n")
+                  f" -tol {fmt(1e-12 * k)}\n -steps {p['time']!r} in {p['steps']} steps\n")
             blocks.append(kb)
             if v.get("dupblock"):
                 blocks.append(kb)
@@ -821,7 +825,7 @@ class History:
                                  + "".join(f" {g} {p!r}\n" for g, p in self.gases))
         if kd == "kinetics":
             return "kinetics", (f"KINETICS {num}\n Dissolve\n -formula KBr 1.0\n -m0 {fmt(self.m0 * k)}\n -parms {self.rate!r}\n"
-                                f" -steps {self.time!r} in 2 steps\n")
+                                f" -tol {fmt(1e-12 * k)}\n -steps {self.time!r} in 2 steps\n")
         return "equilibrium_phases", (f"EQUILIBRIUM_PHASES {num}\n" + "".join(f" {p} {si!r} {fmt(self.pmoles[p] * k)}\n" for p, si in self.phases))
 
     def render(self, N=None, k=1.0, shuffle=None):
